@@ -137,22 +137,29 @@ impl Codec {
 //@+    let ghost mut last_il: int = -1;
 //@   after `*items_left -= 1;`:
 //@+    proof { last_bl = *bytes_left as int; last_il = *items_left as int; }
+//@   after? `if *bytes_left == 0 || *items_left == 0 {`:
+//@+    proof { assert(!(*bytes_left == 0 && *items_left == 0)); } // BadMessage here only for an INCONSISTENT frame: an EMPTY header list (count 0, no bytes) is a legal message and must be delivered
+//@   rewrite `headers: vec![],` => `headers: Vec::new(),` x?
+//@   after? `let bytes_left = header.msg_len as usize - 2;`:
+//@+    proof { last_bl = bytes_left as int; last_il = items_left as int; }
+//@   after `mem::swap(headers, &mut h);`:
+//@+    proof { assert(remaining as int == last_il); assert(1 <= h@.len() <= 32); assert(remaining > 0 ==> h@.len() == 32); }
 //@   before* `return Ok(Message::Headers(HeadersData {`:
-//@+    proof { assert(remaining as int == last_il); assert(remaining == 0 ==> last_bl == 0); assert(1 <= h@.len() <= 32); assert(remaining > 0 ==> h@.len() == 32); }
+//@+    proof { assert(last_il == 0 ==> last_bl == 0); } // a Headers message is complete (no items left) only when the frame's announced bytes are used up
 //@   before `return Ok(Message::Attachment(update, Some(raw)));`:
 //@+    proof { assert(update.read == next_len); assert((update.left == 0) == (self.state is None)); assert(update.left > 0 ==> (self.state matches Attachment(l, _, _) && l == update.left)); }
 //@   loop 1:
 //@+    invariant
 //@+        self.state is Attachment ==> self.state == old(self).state,
-//@+        self.state matches BlockHeaders { bytes_left, items_left, headers } ==> headers@.len() < 32 && (items_left == 0 ==> headers@.len() == 0),
+//@+        self.state matches BlockHeaders { bytes_left, items_left, headers } ==> headers@.len() < 32 && (items_left == 0 ==> headers@.len() == 0) && !(bytes_left == 0 && items_left == 0 && headers@.len() == 0),
 //@   loop 2:
 //@+    invariant
 //@+        self.buffer.blen() == pre_len + k, pre_len + to_read == next_len || to_read == 0,
 //@   requires:
-//@+    old(self).state matches BlockHeaders { bytes_left, items_left, headers } ==> headers@.len() < 32 && (items_left == 0 ==> headers@.len() == 0),
+//@+    old(self).state matches BlockHeaders { bytes_left, items_left, headers } ==> headers@.len() < 32 && (items_left == 0 ==> headers@.len() == 0) && !(bytes_left == 0 && items_left == 0 && headers@.len() == 0),
 //@   ensures:
-//@+    final(self).state matches BlockHeaders { bytes_left, items_left, headers } ==> headers@.len() < 32 && (items_left == 0 ==> headers@.len() == 0),
-//@+    r matches Ok(Message::Headers(hd)) ==> 1 <= hd.headers@.len() <= 32 && (hd.remaining == 0 ==> final(self).state is None)
+//@+    final(self).state matches BlockHeaders { bytes_left, items_left, headers } ==> headers@.len() < 32 && (items_left == 0 ==> headers@.len() == 0) && !(bytes_left == 0 && items_left == 0 && headers@.len() == 0),
+//@+    r matches Ok(Message::Headers(hd)) ==> hd.headers@.len() <= 32 && (hd.headers@.len() == 0 ==> hd.remaining == 0) && (hd.remaining == 0 ==> final(self).state is None)
 //@+        && (hd.remaining > 0 ==> hd.headers@.len() == 32 && (final(self).state matches BlockHeaders { items_left, .. } && items_left == hd.remaining)),
 //@+    r matches Ok(Message::Unknown(_)) ==> final(self).state is None,
 //@+    r matches Ok(Message::Attachment(u, _)) ==> (old(self).state matches Attachment(l0, _, _) && u.read + u.left == l0 && (l0 > 0 ==> u.read >= 1) && u.read <= 48_000)
